@@ -485,6 +485,9 @@ theorem gapFitsBack_of_clean (S : Schema) (doc : Node) (f t gf gt : Nat) (old re
     simpa using this
   -- unfold the guard
   simp only [gapFitsBack, hsl, hgap, hrm]
+  have hrs := (removeBetween_size old rem (gf - f) (gt - f) (by omega) hrm).1
+  have hbound : ((gf - f : Nat) : Int) ≤ rem.size := by rw [hrs, hosz]; omega
+  rw [insertAt_of_le hbound]
   unfold Slice.removeBetween at hrm
   simp only at hrm
   split at hrm
@@ -495,7 +498,7 @@ theorem gapFitsBack_of_clean (S : Schema) (doc : Node) (f t gf gt : Nat) (old re
       obtain ⟨c, hc⟩ := insert_remove S gap.content hgn.1 hpath c1 none old.openStart old.openEnd hc1
         hon.1 hov (by intro p hp; simp at hp)
         (by rw [hwin]; congr 1; omega)
-      simp only [Slice.insertAt, hc]
+      simp only [Slice.insertAtIn, hc]
     · simp at hrm
 
 end PM
